@@ -45,6 +45,23 @@ index -> values.  The label is ``<op family>:<verified input predicate>:<symptom
 a predicate is only used when it was checked on the witness (e.g. "all
 differing groups are present in >= 2 partitions"), otherwise ``other``.
 
+Pre-step facet (partitioning knowledge)
+---------------------------------------
+dask remembers how a frame was hash-partitioned (``unique_partition_mapping_columns_from_shuffle``) and on which
+index it is divided, and lets groupby apply/transform/shift/ffill/bfill/median (and split_out aggregations) skip their
+shuffle when the groups are already inside one partition.  These cases put a step in FRONT of the groupby that
+leaves such knowledge (or must drop it): ``shuffle(on=K)`` with K a superset / equal / subset / overlapping /
+disjoint set of the group keys, ``groupby(K).agg(split_out>1).reset_index()``, a hash ``merge(on=K)``, shuffle +
+repartition, ``set_index``, ``repartition``; optionally followed by a blockwise step (assign a new column, filter,
+overwrite one of the shuffle columns).  Then every groupby op family runs on that frame X (whole-frame, one column,
+list selection, and a list selection that keeps the shuffle columns).  Reference = pandas on ``compute(X)``: the steps
+before the groupby belong to other properties, this facet checks that the groupby on X equals pandas on the rows of X.
+Frames are all-numeric (int keys a, h, g; floats c, d).  Order-dependent operations get a deterministic (task) shuffle in
+the pre-step and are not generated after ``set_index`` (not stable among equal index values, the row order of X is not
+defined).  A failure that disappears when the same partitions are handed over materialised (``from_map``, no knowledge)
+is labelled ``<op group>:pre-step-partitioning-knowledge&keys-relation:<rel>``.  Counters
+``pre-step:<kind>&keys-relation:<rel>`` and ``pre-step-then:<step>`` have floors.
+
 One mechanism = one label (``_canonicalise``)
 --------------------------------------------
 * an exception under a *verified* predicate is labelled with the exception type only (no raising frame); an
@@ -702,8 +719,9 @@ def _pre(x, pre, pdf0, deterministic=False):
     dd = frames_setup()
     kind, K = pre["kind"], pre.get("keys") or []
     if deterministic:
-        # the reference is pandas on compute(X); an operation that depends on the row order needs X to come out in the
-        # same order in both computations, which the disk shuffle does not promise
+        # the reference is pandas on compute(X); an operation that depends on the row order or keeps the row labels (a merge
+        # numbers its output rows per partition) needs X to come out identically in both computations, which the disk
+        # shuffle does not promise
         pre = dict(pre, method="tasks")
     if kind in ("shuffle", "shuffle+repartition"):
         x = x.shuffle(on=K, shuffle_method=pre.get("method", "tasks"), **({"npartitions": pre["npartitions"]} if pre.get("npartitions") else {}))
@@ -1539,7 +1557,7 @@ def _run(case, ctx):
         tag = "pre-step:%s&keys-relation:%s" % (pre["kind"], _relation(pre.get("keys") or [], case["by"]))
         try:
             ddf0 = frames.partition(pdf, case["part"])
-            pre_ddf = _pre(ddf0, pre, pdf, deterministic=op["kind"] in ("cum", "shift", "ffill", "bfill"))
+            pre_ddf = _pre(ddf0, pre, pdf, deterministic=op["kind"] not in ("single", "agg", "value_counts"))
             parts = dask.compute(*[pre_ddf.partitions[i] for i in range(pre_ddf.npartitions)], scheduler="sync")
             pdf = pd.concat(parts) if parts else pre_ddf._meta
             _PARTLEN[:] = [len(x) for x in parts]
